@@ -225,9 +225,11 @@ class StubsStringGenerator:
         if class_.constructor:
             constructor_type_vars = class_.constructor.type_var_types
 
+        # The class generics belong to this class only, not to the classes created before or to nested classes
+        outer_class_generics = self.class_generics
+        self.class_generics = []
         if class_.type_parameters or constructor_type_vars:
             # We collect the class generics for the methods later
-            self.class_generics = []
             for variance in class_.type_parameters:
                 variance_direction = {
                     VarianceKind.INVARIANT.name: "",
@@ -304,6 +306,8 @@ class StubsStringGenerator:
                     )
 
             superclass_info = f" sub {', '.join(superclass_names)}" if superclass_names else ""
+
+        self.class_generics = outer_class_generics
 
         if len(superclass_names) > 1:
             self._current_todo_msgs.add("multiple_inheritance")
